@@ -29,8 +29,10 @@ func stepRule(c *core.Ctx) {
 	type fdesc struct {
 		typ, name string
 		encode    bool
+		validator bool // collects what it refuses: any number of appends per turn, each to its own list
 	}
-	for _, f := range []fdesc{{"", "Encode", true}, {"gsm7Encoder", "Transform", true}, {"", "Decode", false}, {"gsm7Decoder", "Transform", false}} {
+	for _, f := range []fdesc{{"", "Encode", true, false}, {"gsm7Encoder", "Transform", true, false}, {"", "Decode", false, false}, {"gsm7Decoder", "Transform", false, false},
+		{"", "ValidateGSM7String", true, true}, {"", "ValidateGSM7Buffer", false, true}} {
 		var fn *ssa.Function
 		key := gsmPkg + "." + f.name
 		if f.typ == "" {
@@ -96,6 +98,110 @@ func stepRule(c *core.Ctx) {
 			continue
 		}
 		var problems []string
+		// every append in the loop - also on the ways that leave it - extends one of the lists the loop carries
+		{
+			var carried [][]ssa.Value
+			for _, ins := range loop.Header.Instrs {
+				if ph, ok := ins.(*ssa.Phi); ok {
+					if _, isSl := ph.Type().Underlying().(*types.Slice); isSl {
+						var r []ssa.Value
+						rootsOf(ph, map[ssa.Value]bool{}, &r)
+						carried = append(carried, r)
+					}
+				}
+			}
+			sameSet := func(a, b []ssa.Value) bool {
+				in := func(x ssa.Value, l []ssa.Value) bool {
+					for _, y := range l {
+						if x == y {
+							return true
+						}
+					}
+					return false
+				}
+				for _, x := range a {
+					if !in(x, b) {
+						return false
+					}
+				}
+				return len(a) > 0
+			}
+			for b := range loop.Blocks {
+				for _, ins := range b.Instrs {
+					call, ok := ins.(*ssa.Call)
+					if !ok {
+						continue
+					}
+					if bi, isB := call.Call.Value.(*ssa.Builtin); !isB || bi.Name() != "append" {
+						continue
+					}
+					var r []ssa.Value
+					rootsOf(call.Call.Args[0], map[ssa.Value]bool{}, &r)
+					okAcc := false
+					for _, cr := range carried {
+						if sameSet(r, cr) {
+							okAcc = true
+						}
+					}
+					if !okAcc && len(carried) > 0 {
+						problems = append(problems, "the append at "+c.Prog.Pos(call.Pos())+" extends "+describeValue(call.Call.Args[0])+", which is not a list the loop carries: what was collected so far is dropped")
+					}
+				}
+			}
+		}
+		// a list the function answers is a list the loop carried - nothing else is merged into it on a way out of the loop
+		{
+			var carried [][]ssa.Value
+			for _, ins := range loop.Header.Instrs {
+				if ph, ok := ins.(*ssa.Phi); ok {
+					if _, isSl := ph.Type().Underlying().(*types.Slice); isSl {
+						var r []ssa.Value
+						rootsOf(ph, map[ssa.Value]bool{}, &r)
+						carried = append(carried, r)
+					}
+				}
+			}
+			for _, b := range walker.Blocks {
+				ret, ok := b.Instrs[len(b.Instrs)-1].(*ssa.Return)
+				if !ok || len(carried) == 0 {
+					continue
+				}
+				for _, res := range ret.Results {
+					if _, isSl := res.Type().Underlying().(*types.Slice); !isSl {
+						continue
+					}
+					if k, isK := res.(*ssa.Const); isK && k.IsNil() {
+						continue
+					}
+					var r []ssa.Value
+					rootsOf(res, map[ssa.Value]bool{}, &r)
+					okRes := false
+					for _, cr := range carried {
+						sub := len(r) > 0
+						for _, x := range r {
+							found := false
+							for _, y := range cr {
+								if x == y {
+									found = true
+								}
+							}
+							if k, isK := x.(*ssa.Const); isK && k.IsNil() {
+								found = true
+							}
+							if !found {
+								sub = false
+							}
+						}
+						if sub {
+							okRes = true
+						}
+					}
+					if !okRes {
+						problems = append(problems, "the list returned at "+c.Prog.Pos(ret.Pos())+" is not (only) the list the loop collected: something else is merged into it on a way out of the loop")
+					}
+				}
+			}
+		}
 		for _, way := range ways {
 			w := newWay(loop, way)
 			emits := 0
@@ -127,6 +233,26 @@ func stepRule(c *core.Ctx) {
 				}
 			}
 			desc := w.describe(c)
+			// what is appended goes onto the list that is carried round the loop: append(acc, ..) with acc the loop-head
+			// value of that list (or what an earlier append of this turn made of it), and the result is what the next turn
+			// starts from
+			for _, b := range way {
+				for _, ins := range b.Instrs {
+					call, ok := ins.(*ssa.Call)
+					if !ok {
+						continue
+					}
+					if bi, isB := call.Call.Value.(*ssa.Builtin); !isB || bi.Name() != "append" {
+						continue
+					}
+					if why := w.appendsToCarried(call); why != "" {
+						problems = append(problems, fmt.Sprintf("a turn of the loop (%s): %s", desc, why))
+					}
+				}
+			}
+			if f.validator {
+				continue
+			}
 			if emits != 1 {
 				if f.encode {
 					problems = append(problems, fmt.Sprintf("a turn of the loop (%s) appends to the septets %d times, expected once (one value or the escape pair)", desc, emits))
@@ -401,4 +527,128 @@ func isEmission(call *ssa.Call) bool {
 		return true
 	}
 	return false
+}
+
+// appendsToCarried: the append call extends a list carried by a loop-head phi - its first argument is that phi's value
+// at this turn (possibly already extended by an earlier append of the turn) and the phi's next value, on this way, is
+// the result of the last such append. "" if so.
+func (w *wayView) appendsToCarried(call *ssa.Call) string {
+	base := w.through(call.Call.Args[0])
+	for i := 0; i < 4; i++ {
+		prev, ok := base.(*ssa.Call)
+		if !ok {
+			break
+		}
+		if bi, isB := prev.Call.Value.(*ssa.Builtin); !isB || bi.Name() != "append" {
+			break
+		}
+		base = w.through(prev.Call.Args[0])
+	}
+	acc, ok := base.(*ssa.Phi)
+	if !ok || acc.Block() != w.loop.Header {
+		return "an append extends " + describeValue(base) + ", not the list the loop carries from turn to turn: what was collected so far is dropped"
+	}
+	// the phi's next value on this way descends from this append
+	latch := w.way[len(w.way)-1]
+	for k, pb := range w.loop.Header.Preds {
+		if pb != latch {
+			continue
+		}
+		next := w.through(acc.Edges[k])
+		for i := 0; i < 4; i++ {
+			if next == ssa.Value(call) {
+				return ""
+			}
+			nc, ok := next.(*ssa.Call)
+			if !ok {
+				break
+			}
+			if bi, isB := nc.Call.Value.(*ssa.Builtin); !isB || bi.Name() != "append" {
+				break
+			}
+			next = w.through(nc.Call.Args[0])
+		}
+		return "the result of an append is not what the next turn of the loop starts from"
+	}
+	return ""
+}
+
+// unpackedCopyRule (C08-WIRING #unpacked-copy): in its unpacked form the encoding transformer hands the septets to the
+// caller's buffer as they are - copy(dst, septets), or an element loop dst[i] = septets[i] over all of them. The
+// destination is the dst parameter, the source the list the table walk collected.
+func unpackedCopyRule(c *core.Ctx) {
+	fn := c.Prog.SSAFunc(c.Prog.LookupMethod(gsmPkg, "gsm7Encoder", "Transform"))
+	key := gsmPkg + ".gsm7Encoder.Transform#unpacked-copy"
+	if fn == nil || len(fn.Params) < 3 {
+		c.Broken("C08-WIRING", key, "method not found")
+		return
+	}
+	pos := c.Prog.Pos(fn.Pos())
+	dst := ssa.Value(fn.Params[1])
+	src := ssa.Value(fn.Params[2])
+	fromDst := func(v ssa.Value) bool {
+		var r []ssa.Value
+		rootsOf(v, map[ssa.Value]bool{}, &r)
+		return len(r) == 1 && r[0] == dst
+	}
+	collected := func(v ssa.Value) bool {
+		var r []ssa.Value
+		rootsOf(v, map[ssa.Value]bool{}, &r)
+		if len(r) == 0 {
+			return false
+		}
+		for _, x := range r {
+			if x == dst || x == src {
+				return false
+			}
+			switch x.(type) {
+			case *ssa.MakeSlice, *ssa.Call, *ssa.Extract:
+			default:
+				return false
+			}
+		}
+		return true
+	}
+	good := 0
+	var bad []string
+	for _, b := range fn.Blocks {
+		for _, ins := range b.Instrs {
+			switch x := ins.(type) {
+			case *ssa.Call:
+				if bi, ok := x.Call.Value.(*ssa.Builtin); ok && bi.Name() == "copy" && fromDst(x.Call.Args[0]) {
+					if collected(x.Call.Args[1]) {
+						good++
+					}
+				}
+			case *ssa.Store:
+				ia, ok := x.Addr.(*ssa.IndexAddr)
+				if !ok {
+					continue
+				}
+				ld, isLd := x.Val.(*ssa.UnOp)
+				if !isLd || ld.Op != token.MUL {
+					continue
+				}
+				sa, isEl := ld.X.(*ssa.IndexAddr)
+				if !isEl || sa.Index != ia.Index {
+					continue
+				}
+				// an element moved to the same position of another slice
+				if _, isSl := ia.X.Type().Underlying().(*types.Slice); !isSl {
+					continue
+				}
+				if fromDst(ia.X) && collected(sa.X) {
+					good++
+				} else {
+					bad = append(bad, "the element copy at "+c.Prog.Pos(x.Pos())+" moves "+describeValue(sa.X)+" into "+describeValue(ia.X)+", not the septets into dst")
+				}
+			}
+		}
+	}
+	if good == 0 && len(bad) == 0 {
+		// the whole transformer may hand the work to the package functions (N215): judged by the delegation rule
+		c.OK("C08-WIRING", key, pos, "no element copy in the transformer (delegating form)")
+		return
+	}
+	c.Decide(good > 0 && len(bad) == 0, "C08-WIRING", key, pos, "the septets are copied into dst", strings.Join(dedup(bad), "; "))
 }
